@@ -67,6 +67,22 @@ let rec handler r =
         let a = if lh = l - 1 then 0 else 3 in ys.(a + (mh - (m - 1))) in
       put_res (List.iter put_c) (vector_spherical_harmonics_Y fops y (zi l) (zi m));
       put_res (List.iter put_c) (vector_spherical_harmonics_Psi fops y (zi l) (zi m))
+  | "vshrun" -> let k = integer r in
+      (* a history of k requests (kind l m, six neighbour harmonics as the back end answered them: two numbers, T = threw, S = skipped by the loops,
+         then the harmonic (l, m) itself the same way): the model's back end is a function into option, None = throws *)
+      let opt () = (match r.toks.(r.pos) with
+        | "T" | "S" -> let _ = word r in None
+        | _ -> let re = num r in let im = num r in Some (re, im)) in
+      let rec reqs j = if j = 0 then [] else
+        let kind = integer r in let l = integer r in let m = integer r in
+        let ys = Array.init 6 (fun _ -> opt ()) in
+        let own = opt () in
+        let y lh mh = let lh = int_of_z lh and mh = int_of_z mh in
+          if kind >= 2 then own else
+          let a = if lh = l - 1 then 0 else 3 in ys.(a + (mh - (m - 1))) in
+        (((zi kind, zi l), zi m), y) :: reqs (j - 1) in
+      let qs = reqs k in
+      put_res (List.iter (fun a -> (match a with None -> put_w "THROW" | Some v -> List.iter put_c v); put_w ";")) (vsh_run_x fops qs)
   | o -> put_w ("MODELERR unknown_op_" ^ o)
 
 let () = run handler
